@@ -28,26 +28,27 @@ REPLAY_GROUPS = {
     "estimator": dict(file="src/policy.rs", include="replay/estimator.rs"),
     "ttl": dict(file="src/ttl.rs", include="replay/ttl.rs"),
     "policy": dict(file="src/policy/sync.rs", include="replay/policy.rs"),
+    "cache": dict(file="src/cache/sync.rs", include="replay/cache.rs"),
 }
 
 PROPS = {
-    "C01": dict(units=["u4_policy"], kani=[], replay=["policy"]),
-    "C07": dict(units=["u4_policy", "u1_estimator"], kani=[], replay=["policy", "estimator"]),
+    "C01": dict(units=["u4_policy"], kani=[], replay=["policy", "cache"]),
+    "C07": dict(units=["u4_policy", "u1_estimator"], kani=[], replay=["policy", "estimator", "cache"]),
     "C13": dict(units=["u1_estimator"], kani=["bbloom"], replay=["estimator"]),
     "C14": dict(units=["u1_estimator"], kani=["bbloom"], replay=["estimator"]),
     "C20": dict(units=["u1_estimator", "u8_builder", "u7_glue"], kani=["bbloom"], replay=["estimator"]),
-    "C02": dict(units=["u6_store", "u7_glue"], kani=[], replay=["ttl"]),
+    "C02": dict(units=["u6_store", "u7_glue"], kani=[], replay=["ttl", "cache"]),
     "C03": dict(units=["u6_store", "u7_glue"], kani=["ttl"], replay=["ttl"]),
-    "C04": dict(units=["u6_store", "u4_policy"], kani=["ttl"], replay=["ttl", "policy"]),
+    "C04": dict(units=["u6_store", "u4_policy"], kani=["ttl"], replay=["ttl", "policy", "cache"]),
     "C05": dict(units=["u6_store", "u4_policy"], kani=["ttl"], replay=["ttl"]),
-    "C09": dict(units=["u6_store", "u7_glue"], kani=[], replay=["ttl"]),
-    "C18": dict(units=["u6_store"], kani=["keys"], replay=["ttl"]),
-    "C06": dict(units=["u7_glue", "u6_store", "u4_policy"], kani=[], replay=["ttl", "policy"]),
-    "C08": dict(units=["u7_glue", "u6_store"], kani=[], replay=["ttl"]),
-    "C11": dict(units=["u7_glue", "u6_store", "u4_policy", "u1_estimator"], kani=["histogram"], replay=["ttl", "estimator"]),
+    "C09": dict(units=["u6_store", "u7_glue"], kani=[], replay=["ttl", "cache"]),
+    "C18": dict(units=["u6_store", "u7_glue"], kani=["keys"], replay=["ttl"]),
+    "C06": dict(units=["u7_glue", "u6_store", "u4_policy"], kani=[], replay=["ttl", "policy", "cache"]),
+    "C08": dict(units=["u7_glue", "u6_store"], kani=[], replay=["ttl", "cache"]),
+    "C11": dict(units=["u7_glue", "u6_store", "u4_policy", "u1_estimator"], kani=["histogram"], replay=["ttl", "estimator", "cache"]),
     "C15": dict(units=["u7_glue", "u1_estimator"], kani=[], replay=["estimator"]),
-    "C16": dict(units=["u7_glue", "u4_policy", "u6_store"], kani=[], replay=["policy", "ttl"]),
-    "C17": dict(units=["u7_glue", "u4_policy"], kani=["histogram"], replay=["policy"]),
+    "C16": dict(units=["u7_glue", "u4_policy", "u6_store"], kani=[], replay=["policy", "ttl", "cache"]),
+    "C17": dict(units=["u7_glue", "u4_policy"], kani=["histogram"], replay=["policy", "cache"]),
     "C19": dict(units=["u19_async", "u19_async_policy", "u6_store"], kani=[], replay=[]),
 }
 
